@@ -137,6 +137,26 @@ def run_instance(case, ctx):
     return {"outcome": "violations" if viol else "held", "nontrivial": True, "violations": viol, "counters": counters}
 
 
+_DECL = '<?xml version="1.0" encoding="UTF-8"?>'
+_REQ = ('<samlp:AuthnRequest xmlns:samlp="urn:oasis:names:tc:SAML:2.0:protocol" xmlns:saml="urn:oasis:names:tc:SAML:2.0:assertion" ID="id-hand" Version="2.0" '
+        'IssueInstant="2020-01-01T00:00:00Z" Destination="https://idp.example.org/sso/redirect"><saml:Issuer>https://sp.example.org/md</saml:Issuer>'
+        '<samlp:Extensions>%s</samlp:Extensions></samlp:AuthnRequest>')
+HANDWRITTEN = [
+    ("plain", _DECL + "\n" + _REQ % '<x:doc xmlns:x="urn:x">text</x:doc>'),
+    ("no-declaration", _REQ % '<x:doc xmlns:x="urn:x">text</x:doc>'),
+    ("single-quoted-declaration", "<?xml version='1.0' encoding='UTF-8'?>\n" + _REQ % '<x:doc xmlns:x="urn:x">text</x:doc>'),
+    ("declaration-standalone", '<?xml version="1.0" encoding="UTF-8" standalone="yes"?>' + _REQ % '<x:doc xmlns:x="urn:x">text</x:doc>'),
+    ("cdata-holding-a-document", _DECL + _REQ % ('<x:doc xmlns:x="urn:x"><![CDATA[' + _DECL + '<a>1 < 2</a>]]></x:doc>')),
+    ("cdata-no-outer-declaration", _REQ % ('<x:doc xmlns:x="urn:x"><![CDATA[' + _DECL + '<a/>]]></x:doc>')),
+    ("escaped-declaration-in-text", _REQ % ('<x:doc xmlns:x="urn:x">' + _DECL.replace("<", "&lt;") + '</x:doc>')),
+    ("envelope-prefixes-reused", _DECL + (_REQ % '<ns0:doc xmlns:ns0="urn:x" xmlns:ns1="urn:y" ns1:a="b">t</ns0:doc>').replace("samlp:", "ns0:").replace(
+        "xmlns:samlp", "xmlns:ns0")),
+    ("default-namespace", _DECL + '<AuthnRequest xmlns="urn:oasis:names:tc:SAML:2.0:protocol" ID="id-hand" Version="2.0" IssueInstant="2020-01-01T00:00:00Z">'
+     '<Issuer xmlns="urn:oasis:names:tc:SAML:2.0:assertion">https://sp.example.org/md</Issuer><Extensions><doc xmlns="urn:x">a<b/>c</doc></Extensions></AuthnRequest>'),
+    ("dummy-namespace-inside", _REQ % '<x:doc xmlns:x="http://example.org/" x:FuddleMuddle="1"><x:FuddleMuddle/></x:doc>'),
+    ("character-references", _REQ % '<x:doc xmlns:x="urn:x" a="&#10;&#9;&quot;&amp;amp;">&#13;&#10;&lt;&amp;&#x20AC;</x:doc>'),
+    ("whitespace-text", _REQ % '<x:doc xmlns:x="urn:x">  \n\t <x:i> </x:i>\r\n</x:doc>'),
+]
 ARS_INDEXES = list(range(0, 36)) + [99, 100, 127, 128, 160, 171, 255]
 
 
@@ -239,6 +259,11 @@ def gen_cases(tier, seed):
         for binding in ("post", "redirect"):
             cases.append({"id": "%s-payload-%d" % (binding, k), "sig": [binding, "payload", k % 7, "noquery"], "binding": binding, "msg": None,
                           "payload": payload, "relay": r2.choice(RELAY_CLASSES["amp"] + RELAY_CLASSES["quotes"]), "rclass": "mixed", "dest": "noquery"})
+    # hand-written message texts through the envelope bindings: what a serialiser other than the library's own may put into a message
+    for hk in range(len(HANDWRITTEN)):
+        for binding in ("soap", "paos"):
+            cases.append({"id": "%s-handwritten-%s" % (binding, HANDWRITTEN[hk][0]), "sig": [binding, "handwritten", HANDWRITTEN[hk][0]], "binding": binding, "msg": None,
+                          "hand": hk, "relay": "", "rclass": "empty", "dest": "noquery"})
     # the same payloads handed over as bytes (a serialised message is bytes as often as str)
     for k in range(12 if tier == "quick" else 200):
         r2 = random.Random("%s/bytes-payload/%d" % (seed, k))
@@ -304,7 +329,9 @@ def _run_case(case, ctx):
     dest = DESTS[case["dest"]]
     relay = case["relay"]
     viol, counters = [], {}
-    if case["msg"] is None:
+    if "hand" in case:
+        kind, msg, is_resp, soaptype = "handwritten-" + HANDWRITTEN[case["hand"]][0], HANDWRITTEN[case["hand"]][1], False, "authn_request"
+    elif case["msg"] is None:
         if "payload_size" in case:
             case = dict(case, payload=sized_payload(case["payload_size"], case["fill"], ctx.seed))
         kind, msg, is_resp, soaptype = "payload", case["payload"], False, None
